@@ -79,6 +79,10 @@ _g("G-DIA", [("S", "A"), ("S", "B"), ("B", "A"), ("A", "a"), ("B", "b"), ("A", "
 _g("G-DIA2", [("S", "X b"), ("X", "A"), ("X", "B"), ("B", "A"), ("A", "a"), ("B", "a a"), ("S", "X")], note="unary diamond below another symbol: X -> A | B, B -> A")
 _g("G-TOK", [("S", ("a", "b", "S")), ("S", ("ab", "S")), ("S", ()), ("S", ("a",)), ("S", ("b", "a"))], V=("a", "b", "ab"),
    note="tokens a, b and ab: different token sequences spell the same text")
+_g("G-HL2", [("S", "A Z"), ("S", "a"), ("A", "b"), ("S", "A A"), ("A", "Z")], note="finite language; Z occurs only in rule bodies (no rules, not a terminal)")
+_g("G-SCC3", [("S", "C"), ("B", "S"), ("B", "C"), ("C", "B"), ("C", "a"), ("S", "b"), ("B", "b S")], note="one SCC of three nonterminals in which C is used by two others")
+_g("G-LC3", [("S", "E"), ("S", "k Y"), ("S", "j P"), ("Y", "E"), ("Y", "t"), ("E", "P"), ("E", "e"), ("P", "Y y"), ("P", "p")], V=("k", "j", "t", "e", "y", "p"),
+   note="left-recursive cycle Y -> E -> P -> Y through unary rules, entered at different members")
 _g("G-MB", [("S", "é S"), ("S", "ab"), ("S", "€ T"), ("T", "𝄞"), ("T", "x"), ("S", "é")],
    V=("é", "ab", "€", "𝄞", "x"), note="multi-character and multi-byte terminals")
 
